@@ -41,7 +41,7 @@ UNITS = {
                               "unit assembler: rewrite R15 (String::replace -> uninterpreted text): which text is expanded is not modelled (C13 not claimed); R8 on field paths (token.1 == \"\")",
                               "unit assembler: assumed: a &str query / removal on HashSet<String> acts on the String with the same characters (two axioms, as for HashMap)"],
                   "fn_props": {**PRELUDE_FNS, "em_\\d+": ["C08", "C16"], "as_call|as_jmps_loops": ["C08", "C14", "C10"], "as_proc_def|as_label": ["C08", "C14"],
-                               "as_procedure": ["C08", "C16"], "as_mem_.*": ["C04", "C11"], "as_string_.*": ["C07", "C11"], "as_macro_use": ["C16", "C14", "C19", "C13"], "as_macro_arg_.*": ["C13", "C11"], "as_print_mem_len": ["C17", "C14", "C11", "C10"], "glue_em_\\d+": ["C14"], "as_int": ["C14", "C18", "C10"], "as_offset": ["C12", "C14"],
+                               "as_procedure": ["C08", "C16"], "as_mem_.*": ["C04", "C11"], "as_string_.*": ["C07", "C11"], "as_macro_use": ["C16", "C14", "C19", "C13"], "as_macro_arg_.*": ["C13", "C11"], "as_macro_def": ["C13", "C19"], "as_print_mem_len": ["C17", "C14", "C11", "C10"], "glue_em_\\d+": ["C14"], "as_int": ["C14", "C18", "C10"], "as_offset": ["C12", "C14"],
                                "as_byte_label|as_word_label": ["C14", "C10"], "as_unsupported|as_offset_as_byte": ["C14"], "as_d[bw]_.*|as_set|advance_data_counter": ["C12", "C14"], "add_entry": ["C16"], "new|get_type": ["C08", "C14"]}},
     "driver": {"tpl": "driver.rs", "rlimit": 200, "props": ["C07", "C08", "C12", "C14", "C16", "C17", "C18", "C19", "C20", "C09"],
                "fn_props": {**PRELUDE_FNS, "run": ["C08", "C09"], "user_interface": ["C20", "C09"], "note_prompt": ["C20"], "note_lookup|note_cite": ["C16", "C20"], "lemma_least_undefined": ["C19", "C14"],
